@@ -751,7 +751,7 @@ func (st *state) applyDefaults(instancep reflect.Value, schema *Schema) (err err
 					if err := st.applyDefaults(lvalue, subschema); err != nil {
 						return err
 					}
-					instance.SetMapIndex(reflect.ValueOf(prop), lvalue.Elem())
+					instance.SetMapIndex(mapKey(instance, prop), lvalue.Elem())
 				} else if val.IsValid() {
 					// Recurse into an existing sub-instance.
 					// MapIndex returns a non-addressable value; copy into an addressable lvalue, recurse, then set back.
@@ -761,7 +761,7 @@ func (st *state) applyDefaults(instancep reflect.Value, schema *Schema) (err err
 					if err := st.applyDefaults(lvalue, subschema); err != nil {
 						return err
 					}
-					instance.SetMapIndex(reflect.ValueOf(prop), lvalue.Elem())
+					instance.SetMapIndex(mapKey(instance, prop), lvalue.Elem())
 				} else if schemaHasDefaultsInProperties(subschema) {
 					// Property is missing, but descendants still have some defaults
 					// Create an empty container and recurse to populate
@@ -781,7 +781,7 @@ func (st *state) applyDefaults(instancep reflect.Value, schema *Schema) (err err
 						if err := st.applyDefaults(lvalue, subschema); err != nil {
 							return err
 						}
-						instance.SetMapIndex(reflect.ValueOf(prop), lvalue.Elem())
+						instance.SetMapIndex(mapKey(instance, prop), lvalue.Elem())
 					}
 				}
 			case reflect.Struct:
@@ -823,7 +823,7 @@ func schemaHasDefaultsInProperties(s *Schema) bool {
 func property(v reflect.Value, name string) reflect.Value {
 	switch v.Kind() {
 	case reflect.Map:
-		return v.MapIndex(reflect.ValueOf(name))
+		return v.MapIndex(mapKey(v, name))
 	case reflect.Struct:
 		props := structPropertiesOf(v.Type())
 		// Ignore nonexistent properties.
@@ -834,6 +834,16 @@ func property(v reflect.Value, name string) reflect.Value {
 	default:
 		panic(fmt.Sprintf("property(%q): bad value %s of kind %s", name, v, v.Kind()))
 	}
+}
+
+// mapKey returns name as a key for the map m, whose key type must have kind
+// string but may be a defined type.
+func mapKey(m reflect.Value, name string) reflect.Value {
+	key := reflect.ValueOf(name)
+	if kt := m.Type().Key(); kt != key.Type() {
+		key = key.Convert(kt)
+	}
+	return key
 }
 
 // properties returns an iterator over the names and values of all properties
